@@ -88,7 +88,7 @@ def gen_case(rng, arm, tier, k=0):
             for i in range(n):
                 if rng.random() < 0.4:
                     Xm[i] = [abs(v) * 40.0 + 90.0 if abs(v) < 1e100 else v for v in Xm[i]]
-        mats.append({"style": style, "X": Xm, "Y": Ym, "layout": rng.choice(("c", "c", "c", "f", "strided", "cols"))})
+        mats.append({"style": style, "X": Xm, "Y": Ym, "layout": rng.choice(("c", "c", "c", "f", "strided", "cols", "be"))})
     vecs = []
     for _ in range(rng.randint(2, 4)):
         style = rng.choice(("zeros", "zeros", "positive", "generic"))
@@ -227,7 +227,7 @@ class World:
                 fn = B.distance.DISTANCES[m.get("pre_metric", "euclidean")]
                 for i in range(n):
                     for j in range(n):
-                        P[i, j] = fn(X[i].copy(), X[j].copy())
+                        P[i, j] = fn(np.array(X[i], dtype=np.float64), np.array(X[j], dtype=np.float64))
             self.pres.append(P)
         self.slot_specs = case.get("slots", [])
         self.new_models()
@@ -360,11 +360,21 @@ def execute(op, w, scratch, tag, dealias=False):
             m.fit(X, Y, X, Y, I, I)
         else:
             m.fit(X, Y, I)
+        st_fit = sg_state(m.subgraph)  # the forest as fitted (predictions below set relevance flags)
         g = m.get_distances(normalize)
-        p = m.predict(X, I)
-        sg = m.subgraph
+        if not dealias and n >= 4:
+            # (live world only) an earlier request of the same size with other identifiers
+            half = n // 2
+            m.predict(X[:half], I[:half])
+            p_tail = m.predict(X[n - half :], I[n - half :])
+        elif n >= 4:
+            half = n // 2
+            p_tail = m.predict(X[n - half :], I[n - half :])
+        else:
+            p_tail = None
+        p = (m.predict(X, I), p_tail)
         m.pre_distances = None
-        return (sg_state(sg), g, p)
+        return (st_fit, g, p)
     if kind in ("mfit", "mpredict"):
         _, slot, k, k2, use_labels = op
         slot %= len(w.models)
@@ -474,8 +484,10 @@ def attempt(op, w, scratch, tag, dealias=False):
     try:
         return True, execute(op, w, scratch, tag, dealias), None
     except (Exception, SimTimeout) as exc:  # noqa: BLE001
-        if library_site(exc, B.REPO_PKG) is None:
+        if library_site(exc, B.REPO_PKG) is None and op[0] not in ("dist", "dist32"):
             raise
+        # (a jitted metric called directly has no Python frame of its own: an exception out of a
+        # `dist` op - e.g. numba refusing a big-endian array - is the metric's outcome)
         return False, None, exc
 
 
@@ -592,6 +604,8 @@ def run_case(case):
             ok2, res2, exc2 = attempt(twin_op, twin, scratch, "twin%d" % k, dealias=True)
             if ok != ok2 or (not ok and type(exc).__name__ != type(exc2).__name__):
                 e = exc if not ok else exc2
+                if library_site(e, B.REPO_PKG) is None:
+                    raise Stop(violation("raised-history-dependent:%s@metric" % type(e).__name__, "op #%d %s raised %s on the %s world only: %s" % (k, op, type(e).__name__, "live" if not ok else "pristine", str(e)[:160]), op=lab[0], metric_class=mclass))
                 v = raised_violation(e, B.REPO_PKG, "op #%d %s on the %s world only" % (k, op, "live" if not ok else "pristine"), extra_clause="-history-dependent")
                 raise Stop(v)
             if not ok:
